@@ -139,8 +139,9 @@ def MockState.request (s : MockState) (ep : String) (doc : Json) : MockState × 
         match matchAll s ep b.requests with
         | (s', .raised e) => (s', .raised e)
         | (s', .ok resps) =>
-          -- `response.append(...)` one by one on a strict BatchResponse
-          match BatchResponse.construct resps with
+          -- `response.append(...)` one by one on a non-strict BatchResponse (after the repair D30: replies
+          -- configured with the same id do not make the mocker raise IdentityError)
+          match BatchResponse.construct resps .unset false with
           | .raised e => (s', .raised e)
           | .ok br => (s', .text br.toJson)
     else
